@@ -466,6 +466,14 @@ def run_shared(chk, focus):
             if klass in ("des", "trunc", "lm", "reject") or mode == "size":
                 keys.sort(key=lambda k: abs(sum(len(SYMS[s]) for s in k[1]) - TM[0]))
             chosen = keys[:per_hasher]
+            if klass in ("des", "trunc", "lm", "reject") or mode == "size":
+                # ... and among them the ones whose BYTE length exceeds the limit while their CHARACTER count does not (two-byte symbols),
+                # and the ones that exceed it with bytes that are no text: half of the budget each way
+                def blen(k):
+                    return sum(len(SYMS[x]) for x in k[1])
+                special = [k for k in keys if ("m2" in k[1] or "hi" in k[1]) and TM[0] < blen(k) <= TM[0] + 2 and not (k[0] and focus == "C01")]
+                plain = [k for k in keys if k not in special]
+                chosen = special[:per_hasher // 2] + plain[:per_hasher - min(len(special), per_hasher // 2)]
             if klass in ("des", "trunc", "lm", "reject") and mode == "trunc" and focus == "C05":
                 # every password whose BYTE length is limit-1, limit or limit+1 (1- and 2-byte characters), both policies
                 chosen = [k for k in keys if TM[0] - 1 <= sum(len(SYMS[x]) for x in k[1]) <= TM[0] + 1]
